@@ -4,14 +4,11 @@
      GP_seq         PSequence(list, repeats) with items scalars or patterns of the fragment, repeats a scalar
      GP_map         PRound(input, *args, **kwargs): input, args and kwargs scalars or patterns of the fragment
      GP_dict        PDict({k: v}) with values scalars or patterns of the fragment
-     GP_arrayindex_fixed    PArrayIndex([items], i) with a scalar index, items scalars or patterns of the fragment
-     GP_arrayindex_scalars  PArrayIndex([scalars], index) with index a scalar or a pattern of the fragment
+     GP_arrayindex_list     PArrayIndex([items], index): items and index scalars or patterns of the fragment (since the repair
+                            C09-parrayindex-revives the object carries an `exhausted` flag: every PArrayIndex is sticky)
    Main theorem [gpat_quiet]: once next() of a pattern of gpat has raised StopIteration (at any fuel) no later next() returns a
    value (at ANY fuel); [gpat_closed]: closed under next(); [fpat_gpat]: contains fpat.
-   NOT in the fragment, and not sticky: PArrayIndex over a literal list with pattern items AND a pattern index - see
-   [arrayindex_revives] in Props/C09More.v (an item that has ended raises StopIteration, the next index selects a live one).
-   The per-class invariants are new ([map_quiet], [dict_quiet], [seq_item_quiet], [arrayindex_fixed_quiet],
-   [arrayindex_index_quiet]); the cases of the old classes repeat the proof of fpat_quiet with the new induction hypothesis. *)
+   The per-class invariants are new ([map_quiet], [dict_quiet], [seq_item_quiet]; PArrayIndex: [arrayindex_stop], [arrayindex_exhausted_quiet]); the cases of the old classes repeat the proof of fpat_quiet with the new induction hypothesis. *)
 From Isobar Require Import Base.Prelude Pat.Val Pat.Syntax Pat.Step Pat.StepProofs Pat.IterProofs Pat.ResetProofs Pat.StickyProofs Pat.ResetProofs2.
 From Coq Require Import String QArith Wf_nat.
 Open Scope Z_scope.
@@ -150,41 +147,6 @@ Section Sticky2.
     destruct o; try discriminate Y; cbn [fst snd]; (split; [reflexivity|exact K]).
   Qed.
 
-  (** * PArrayIndex over a literal list *)
-  (* a quiet index silences it, whatever the items *)
-  Lemma arrayindex_index_quiet f l0 : forall index, aquiet f index -> quiet (S f) (PArrayIndex (AL l0) index).
-  Proof.
-    intros index N.
-    apply (quiet_coind binop LMAX (S f) (fun p => exists l index, p = PArrayIndex (AL l) index /\ aquiet f index)); [|eauto].
-    clear l0 index N. intros p [l [index [-> N]]]. rewrite step_arrayindex_list_eq. poll_v N f index.
-    destruct o; try discriminate Y; cbn [fst snd]; (split; [reflexivity|eauto]).
-  Qed.
-
-  Lemma step_arrayindex_fixed_eq f l vi : is_none vi = false ->
-    step (S (S f)) (PArrayIndex (AL l) (AV vi)) =
-      match py_int vi with
-      | Yield (VInt i) =>
-          match py_index l i with
-          | None => (Raise IndexError, PArrayIndex (AL l) (AV vi))
-          | Some a => let '(o, a') := value (S f) a in (o, PArrayIndex (AL (update_nth (py_index_pos l i) a' l)) (AV vi))
-          end
-      | Yield _ => (Inexact, PArrayIndex (AL l) (AV vi))
-      | o => (o, PArrayIndex (AL l) (AV vi))
-      end.
-  Proof. intro Hn. rewrite step_arrayindex_list_eq, value_scalar. destruct vi; try discriminate Hn; reflexivity. Qed.
-
-  (* a fixed index whose item is quiet *)
-  Lemma arrayindex_fixed_quiet f vi i : is_none vi = false -> py_int vi = Yield (VInt i) ->
-    forall l a, py_index l i = Some a -> aquiet f a -> quiet (S f) (PArrayIndex (AL l) (AV vi)).
-  Proof.
-    intros Hn Hi l a Ha N.
-    apply (quiet_coind binop LMAX (S f) (fun p => exists l a, p = PArrayIndex (AL l) (AV vi) /\ py_index l i = Some a /\ aquiet f a)); [|eauto 6].
-    clear l a Ha N. intros p [l [a [-> [Ha N]]]].
-    destruct f as [|f']; [cbn; split; [reflexivity|eauto 6]|].
-    rewrite step_arrayindex_fixed_eq by exact Hn. rewrite Hi, Ha. poll_v N (S f') a.
-    cbn [fst snd]. split; [exact Y|]. eexists _, a0. split; [reflexivity|]. split; [eapply py_index_update_same; eauto|exact N].
-  Qed.
-
   (** * The fragment *)
   Inductive gpat : pat -> Prop :=
   | GP_counter p : ends_by_counter p = true -> gpat p
@@ -210,14 +172,13 @@ Section Sticky2.
   | GP_indexof_list l b : garg b -> gpat (PIndexOf (AL l) b)
   | GP_dictkey a b : garg a -> garg b -> gpat (PDictKey a b)
   | GP_dictkey_dict kv b : garg b -> gpat (PDictKey (AD kv) b)
-  | GP_arrayindex a b : garg a -> garg b -> gpat (PArrayIndex a b)
+  | GP_arrayindex a b e : garg a -> garg b -> gpat (PArrayIndex a b e)
   | GP_concat l pos : Forall garg l -> gpat (PConcatenate (AL l) pos)
   (* the classes Pat/StickyProofs.v left open *)
   | GP_seq l vrep rc pos : Forall garg l -> gpat (PSequence (AL l) (AV vrep) rc pos)
   | GP_map a op args kwargs : garg a -> Forall garg args -> Forall (fun ka => garg (snd ka)) kwargs -> gpat (PMap a op args kwargs)
   | GP_dict kv : Forall (fun ka => garg (snd ka)) kv -> gpat (PDict (AD kv))
-  | GP_arrayindex_fixed l vi : Forall garg l -> gpat (PArrayIndex (AL l) (AV vi))
-  | GP_arrayindex_scalars l b : scalars l = true -> garg b -> gpat (PArrayIndex (AL l) b)
+  | GP_arrayindex_list l b e : Forall garg l -> garg b -> gpat (PArrayIndex (AL l) b e)
   with garg : arg -> Prop :=
   | GA_val v : garg (AV v)
   | GA_pat p : gpat p -> garg (AP p).
@@ -320,7 +281,9 @@ Section Sticky2.
             gclosed_case IHs IHv IHn.
         * rewrite step_dictkey_eq by (apply garg_simple; assumption). gclosed_case IHs IHv IHn.
         * rewrite step_dictkey_dict_eq. gclosed_case IHs IHv IHn.
-        * rewrite step_arrayindex_eq by (apply garg_simple; assumption). gclosed_case IHs IHv IHn.
+        * rewrite step_arrayindex_unfold. destruct e; [exact Hp|].
+          rewrite arrayindex_body_gen by (intros l0 E0; subst; match goal with Ha : garg (AL _) |- _ => inversion Ha end).
+          gclosed_case IHs IHv IHn.
         * rewrite step_concat_eq. destruct (py_index l pos) as [a|] eqn:Ei; [|exact Hp].
           pose proof (IHn a (py_index_Forall _ _ _ _ H Ei)) as Fa'. destruct (anext f a) as [o a']. cbn [snd] in Fa'. cbv zeta.
           pose proof (Forall_update_nth garg l (py_index_pos l pos) a' H Fa') as Hl'.
@@ -349,27 +312,16 @@ Section Sticky2.
         * (* PDict *)
           rewrite step_dict_eq. pose proof (kwvalues_of_Forall garg (value f) kv IHv H) as Kk.
           destruct (kwvalues_of (value f) kv) as [o kv']. cbn [snd] in *. apply GP_dict. exact Kk.
-        * (* PArrayIndex, fixed index *)
-          rewrite step_arrayindex_list_eq. destruct (value f (AV vi)) as [oi b'] eqn:Er.
-          assert (b' = AV vi) by (destruct f; cbn in Er; inversion Er; reflexivity). subst b'.
-          destruct oi as [v0| | | |]; try (cbn [snd]; apply GP_arrayindex_fixed; assumption).
-          destruct v0; try (cbn [snd]; apply GP_arrayindex_fixed; assumption).
+        * (* PArrayIndex over a literal list *)
+          rewrite step_arrayindex_unfold. destruct e; [exact Hp|]. rewrite arrayindex_body_list_eq.
+          pose proof (IHv b H0) as Kb. destruct (value f b) as [oi b']. cbn [snd] in Kb.
+          destruct oi as [v0| | | |]; try (cbn [snd]; apply GP_arrayindex_list; assumption).
+          destruct v0; try (cbn [snd]; apply GP_arrayindex_list; assumption).
           all: match goal with |- context [py_int ?v] => destruct (py_int v) as [[| |i| | | | |]| | | |] end;
-            try (cbn [snd]; apply GP_arrayindex_fixed; assumption).
-          all: destruct (py_index l i) as [x|] eqn:Ei; [|cbn [snd]; apply GP_arrayindex_fixed; assumption].
+            try (cbn [snd]; apply GP_arrayindex_list; assumption).
+          all: destruct (py_index l i) as [x|] eqn:Ei; [|cbn [snd]; apply GP_arrayindex_list; assumption].
           all: pose proof (IHv x (py_index_Forall _ _ _ _ H Ei)) as Kx; destruct (value f x) as [o x']; cbn [snd] in Kx |- *.
-          all: apply GP_arrayindex_fixed; apply Forall_update_nth; assumption.
-        * (* PArrayIndex over scalars *)
-          rewrite step_arrayindex_list_eq. pose proof (IHv b H0) as Kb. destruct (value f b) as [oi b']. cbn [snd] in Kb.
-          destruct oi as [v0| | | |]; try (cbn [snd]; apply GP_arrayindex_scalars; assumption).
-          destruct v0; try (cbn [snd]; apply GP_arrayindex_scalars; assumption).
-          all: match goal with |- context [py_int ?v] => destruct (py_int v) as [[| |i| | | | |]| | | |] end;
-            try (cbn [snd]; apply GP_arrayindex_scalars; assumption).
-          all: destruct (py_index l i) as [x|] eqn:Ei; [|cbn [snd]; apply GP_arrayindex_scalars; assumption].
-          all: destruct (scalars_index _ _ _ H Ei) as [v1 ->].
-          all: assert (Es : snd (value f (AV v1)) = AV v1) by (destruct f; reflexivity).
-          all: destruct (value f (AV v1)) as [o x']; cbn [snd] in Es |- *; subst x'; rewrite (py_index_update _ _ _ Ei).
-          all: apply GP_arrayindex_scalars; assumption.
+          all: apply GP_arrayindex_list; [apply Forall_update_nth; assumption|assumption].
       + intros a [v|p Hp]; [exact (GA_val v)|]. rewrite value_pattern. pose proof (IHs p Hp) as K.
         destruct (step f p). apply GA_pat. exact K.
       + intros a [v|p Hp]; [exact (GA_val v)|]. rewrite anext_pattern. pose proof (IHs p Hp) as K.
@@ -513,13 +465,7 @@ Section Sticky2.
           apply (unary_quiet binop LMAX (fun b => PDictKey (AD kv) b) (dictkey_g (VDict d)) MS).
           eapply AQ; [|eassumption]; assumption.
         * (* PArrayIndex *)
-          pose proof (garg_simple _ H0) as Sa. pose proof (simple_value binop LMAX f a Sa) as Sa'.
-          destruct (bs_stop binop LMAX PArrayIndex arrayindex_g (step_arrayindex_eq binop LMAX) arrayindex_g_no_stop f a b p' Sa H) as [[a' [E ->]]|[va [a' [b' [Ea [Eb ->]]]]]];
-            (intros [|f2]; [apply quiet_0|]); apply (bs_quiet binop LMAX PArrayIndex arrayindex_g (step_arrayindex_eq binop LMAX)).
-          -- rewrite E in Sa'. exact Sa'.
-          -- left. eapply AQ; [|eassumption]; assumption.
-          -- rewrite Ea in Sa'. exact Sa'.
-          -- right. eapply AQ; [|eassumption]; assumption.
+          destruct (arrayindex_stop binop LMAX _ _ _ _ _ H) as [l' [i' ->]]. apply arrayindex_exhausted_quiet.
         * (* PConcatenate *)
           destruct (concat_stop binop LMAX garg garg_anext_closed _ _ _ _ H0 H) as [l' [pos' [a0 [a' [f0 [-> [Hp [Hi [Fa0 [Ea0 Lt]]]]]]]]]].
           intros [|f2]; [apply quiet_0|].
@@ -555,23 +501,8 @@ Section Sticky2.
           destruct (kwvalues_of_stop _ _ _ Ek) as [k [x [x' [I1 [I2 I3]]]]].
           intros [|f2]; [apply quiet_0|]. apply dict_quiet. apply Exists_exists. exists (k, x'). split; [exact I3|]. cbn [snd].
           eapply AQ; [|exact I2]. rewrite Forall_forall in H0. exact (H0 _ I1).
-        * (* PArrayIndex over a literal list, fixed index *)
-          destruct f as [|f']; [discriminate|].
-          destruct (is_none vi) eqn:Hn; [destruct vi; try discriminate Hn; rewrite step_arrayindex_list_eq, value_scalar in H; discriminate|].
-          rewrite step_arrayindex_fixed_eq in H by exact Hn.
-          destruct (py_int vi) as [[| |i| | | | |]| | | |] eqn:Epi; try discriminate H.
-          -- destruct (py_index l i) as [x|] eqn:Ei; [|discriminate]. destruct (value (S f') x) as [o x'] eqn:Ex. inversion H; subst.
-             intros [|f2]; [apply quiet_0|]. eapply arrayindex_fixed_quiet; [exact Hn|exact Epi|eapply py_index_update_same; eauto|].
-             eapply AQ; [|exact Ex]. eapply py_index_Forall; eauto.
-          -- exfalso. exact (py_int_ns _ Epi).
-        * (* PArrayIndex over a literal list of scalars *)
-          rewrite step_arrayindex_list_eq in H. destruct (value f b) as [oi b'] eqn:Eb. destruct oi as [v0| | | |]; try discriminate H.
-          -- exfalso. destruct v0; try discriminate H.
-             all: match type of H with context [py_int ?v] => destruct (py_int v) as [[| |i| | | | |]| | | |] eqn:Epi end; try discriminate H;
-               try (exact (py_int_ns _ Epi)).
-             all: destruct (py_index l i) as [x|] eqn:Ei; [|discriminate H].
-             all: destruct (scalars_index _ _ _ H0 Ei) as [v1 ->]; destruct f; cbn in H; discriminate H.
-          -- inversion H; subst. intros [|f2]; [apply quiet_0|]. apply arrayindex_index_quiet. eapply AQ; [|exact Eb]; assumption.
+        * (* PArrayIndex over a literal list: items and index may all be patterns *)
+          destruct (arrayindex_stop binop LMAX _ _ _ _ _ H) as [l' [i' ->]]. apply arrayindex_exhausted_quiet.
       + intros a a' Hs H. destruct Hs as [v|p Hp]; [discriminate|].
         rewrite value_pattern in H. destruct (step f p) as [o p1] eqn:E. inversion H; subst.
         intros [|f2]; [apply aquiet_0|]. apply aquiet_pattern. eapply Q; eauto.
